@@ -165,4 +165,23 @@ PROPS = {
         ],
         "trusted_base": ["Model/Autocorr.v (rational specification); mathcomp 1.15 algebra for the DFT identity (axiom free)"],
     },
+    "C14": {
+        "harness_cmd": "c14",
+        "property_files": ["C14.v"],
+        "expected_theorems": ["C14_roundtrip", "C14_source_fields_ok", "C14_continuation_deterministic"],
+        "assumptions": [
+            "serde_json is trusted; the RNG used is the harness' serialisable TapeRng (SmallRng is not serialisable)",
+            "the field-mode model abstracts values; that each field's VALUE survives (e.g. the cutoff, not just a cutoff) is decided by JSON equality after the round trip and by continuing restored and uninterrupted runs in lock-step at every step index",
+        ],
+        "trusted_base": ["tools/extract.py field lists (Generated/SerdeFields.v)", "serde / serde_json"],
+    },
+    "C13": {
+        "harness_cmd": "c13",
+        "property_files": ["C13.v"],
+        "expected_theorems": ["C13_step_is_a_function", "C13_replay_composes", "C13_predrawn_equals_lazy", "C13_any_schedule_same_result"],
+        "assumptions": [
+            "real work-stealing interleavings are outside any executable Gallina model: that the parallel closures touch disjoint replicas is Rust's &mut / par_iter_mut guarantee under #![forbid(unsafe_code)] (trusted); the rest is differential (pools of 1..16 threads, repeated)",
+        ],
+        "trusted_base": ["rayon; Rust's aliasing rules for par_iter_mut"],
+    },
 }
